@@ -136,6 +136,18 @@ def check_case(ctx, case):
         if not any(math.isnan(v) for v in (la, ha, lb, hb)) and not (rel(la, -hb, 1e-6, tol) and rel(ha, -lb, 1e-6, tol)):
             ctx.violation("T:swap_does_not_mirror_interval", {"ab": [la, ha], "ba": [lb, hb]})
 
+    # ---------------- after scaled calls the forecast objects are as before: an unscaled T-test on the same objects
+    if scale:
+        o = call(P.paired_t_test, fa, fb, cat(), alpha=alpha, scale=False)
+        if not o.ok:
+            ctx.unexpected(o, "paired_t_test_unscaled_after_scaled")
+        else:
+            d1 = [math.log(ra[c, m]) - math.log(rb[c, m]) for c, m in obs]
+            n1, n2 = math.fsum(ra.ravel().tolist()), math.fsum(rb.ravel().tolist())
+            ig1 = (math.fsum(d1) - (n1 - n2)) / N
+            sc1 = (math.fsum(abs(v) for v in d1) + abs(n1) + abs(n2)) / N
+            if abs(float(o.value.observed_statistic) - ig1) > 1e-9 * sc1 + 1e-12:
+                ctx.violation("T:scaled_call_left_the_forecast_scaled", {"got": float(o.value.observed_statistic), "want": ig1, "days": days})
     # ---------------- W (scale=False only, see ASSUMPTIONS)
     if not scale:
         m = (na - nb) / N
